@@ -37,6 +37,8 @@ Descriptions (JSON; tuples of harness/trees.py arrive as lists):
          | {"id", "kind": "expr", "name": <key of EXPRS>}
          | {"id", "kind": "text", "text": s, "deps": [payload...], "pattern": s|null}
          | {"id", "kind": "resolve", "deps": [payload...]}
+         | {"id", "kind": "sharedlist", "texts": [s...], "deps": [payload...], "pattern": s, "opts": {...}}
+                        several HTMLTextDocument objects built from ONE deps list object
          | {"id", "kind": "unique", "values": [s...]}
          | {"id", "kind": "prog", "steps": [step...], "doc_kw": [[k, val]...]}
                         a small program over the PUBLIC construction / mutation API (class Prog
@@ -757,9 +759,7 @@ def observe(item: dict, raw: bool = False) -> dict:
                 res["opts"] = [digest(r2["html"]), [[d.name, str(d.version)] for d in r2["dependencies"]]]
                 # the same document again, and a second document built from equal arguments (its own list)
                 res["html_again"] = digest(td.render()["html"])
-                # (its OWN list: HTMLTextDocument keeps the caller's `deps` list and appends the extracted
-                # dependencies to it, so two documents given the same list object see each other's -- reported
-                # as a finding about /repo, and that input class is left out here)
+                # (its own list here; several documents from the SAME list object: item kind "sharedlist")
                 if item["pattern"] is not None:
                     deps2 = [Builder().dep(p) for p in item["deps"]]
                     r3 = HTMLTextDocument(item["text"], deps=deps2, deps_replace_pattern=item["pattern"]).render()
@@ -771,6 +771,53 @@ def observe(item: dict, raw: bool = False) -> dict:
                 res["reuse_bad"] = bld.reuse_bad
             return res
         return {"text": safe(text)}
+    if k == "sharedlist":
+        # two or three HTMLTextDocument objects built from the SAME deps list object (finding F13)
+        pat = item["pattern"]
+        lp, iv = (item.get("opts") or {}).get("lib_prefix", "lib"), (item.get("opts") or {}).get("include_version", True)
+
+        def rows(deps):
+            return [dep_row(d) for d in deps]
+
+        def rd(d):
+            r = d.render(lib_prefix=lp, include_version=iv)
+            return [digest(r["html"]), [[x.name, str(x.version)] for x in r["dependencies"]]]
+
+        def mkdoc(t, lst):
+            return HTMLTextDocument(t, deps=lst, deps_replace_pattern=pat)
+
+        def shared():
+            res: dict = {}
+            # (a) all documents constructed first, then rendered in order, then rendered again in reverse order
+            bld = Builder()
+            lst = [bld.dep(p) for p in item["deps"]]
+            res["list_before"] = rows(lst)
+            docs, after_c = [], []
+            for t in item["texts"]:
+                docs.append(mkdoc(t, lst))
+                after_c.append(rows(lst))
+            res["list_after_each_construction"] = after_c
+            res["first"] = [rd(d) for d in docs]
+            res["list_after_render"] = rows(lst)
+            res["again"] = list(reversed([rd(d) for d in reversed(docs)]))
+            # (b) interleaved: the first document is rendered, then the next one is constructed from the same list
+            bld2 = Builder()
+            lst2 = [bld2.dep(p) for p in item["deps"]]
+            inter, d_first, first_later = [], None, []
+            for t in item["texts"]:
+                d = mkdoc(t, lst2)
+                inter.append(rd(d))
+                if d_first is None:
+                    d_first = d
+                else:
+                    first_later.append(rd(d_first))
+            res["interleaved"] = inter
+            res["first_document_later"] = first_later
+            res["list_after_interleaved"] = rows(lst2)
+            # each document alone, with a list of its own made from equal arguments
+            res["alone"] = [rd(mkdoc(t, [Builder().dep(p) for p in item["deps"]])) for t in item["texts"]]
+            return res
+        return {"shared": safe(shared)}
     if k == "resolve":
         def resolve():
             bld = Builder()
